@@ -111,6 +111,11 @@ def run_case(case, ctx):
         # files whose tags end in stacked comment terminators: the place where set order used to leak into a regex
         (root / "stacked1.html").write_text("<!-- /* SPDX-License-Identifier: MIT*/-->\n<!-- SPDX-FileCopyrightText: 2020 Stack One -->\n")
         (root / "stacked2.html").write_text("<!-- /* SPDX-License-Identifier: MIT-->*/\n<!-- SPDX-FileCopyrightText: 2020 Stack Two */ -->\n")
+        # one source that holds X and 'X OR Y' (Boolean algebra would absorb Y), a Meson subproject with a file of its own
+        (root / "absorb.py").write_text("# SPDX-FileCopyrightText: 2020 Absorb\n# SPDX-License-Identifier: MIT\n# SPDX-License-Identifier: MIT OR Apache-2.0\n"
+                                        "# SPDX-License-Identifier: 0BSD AND (0BSD OR ISC)\n")
+        (root / "subprojects" / "libfoo").mkdir(parents=True, exist_ok=True)
+        (root / "subprojects" / "libfoo" / "foo.c").write_text("int foo;\n")
         (root / "deep" / "er" / "still").mkdir(parents=True)
         (root / "deep" / "REUSE.toml").write_text('version = 1\n[[annotations]]\npath = "**"\nprecedence = "closest"\nSPDX-FileCopyrightText = "2001 Deep"\n') if mode == "toml" else None
         (root / "deep" / "er" / "x.py").write_text("print(1)\n")
@@ -162,7 +167,7 @@ def run_case(case, ctx):
             return ["--root", str(base / "via_link")]
 
         def one_run(cfg, cmd):
-            cwd = {"root": str(root), "sub": str(root / sub), "parent": str(base), "slash": "/"}[cfg["cwd"]]
+            cwd = {"root": str(root), "sub": str(root / sub), "parent": str(base), "slash": "/", "meson": str(root / "subprojects" / "libfoo")}[cfg["cwd"]]
             gl = spelling(cfg["root"], cwd)
             if cfg["workers"] == 0:
                 gl = ["--no-multiprocessing"] + gl
@@ -189,14 +194,15 @@ def run_case(case, ctx):
         def valid(cfg):
             # --root omitted: the project is found from cwd (Git) or is cwd itself
             if cfg["root"] == "omitted":
-                return cfg["cwd"] == "root" or (git and cfg["cwd"] == "sub")
+                return cfg["cwd"] == "root" or (git and cfg["cwd"] in ("sub", "meson"))
             if cfg["root"] == "dot":
                 return cfg["cwd"] == "root"
             return True
 
         base_cfg = {"id": 0, "workers": 0, "chunk": 0, "delay": 0, "walk": 0, "hashseed": "0", "cwd": "root", "root": "absolute"}
         reference = {}
-        for cmd in (["lint", "--json"], ["spdx"]):
+        spdx_cmd = ["spdx"] if k % 2 else ["spdx", "--add-license-concluded", "--creator-person", "J Doe"]
+        for cmd in (["lint", "--json"], spdx_cmd):
             p, cwd, _ = one_run(base_cfg, cmd)
             if (p.returncode not in (0, 1) and not (linked and p.returncode == 2)) or b"VERIF-ESCAPED" in p.stderr:
                 res.violation("baseline-run-failed", f"baseline {' '.join(cmd)} exit {p.returncode}", stderr=p.stderr.decode(errors="replace")[-800:])
@@ -212,12 +218,12 @@ def run_case(case, ctx):
             cid += 1
             cfg = {"id": cid, "workers": rng.choice([0, 1, 2, 3, 8, 16]), "chunk": rng.choice([0, 1, 2, 5]), "delay": rng.choice([0, 1, 2, 3]),
                    "walk": rng.choice([0, 1, 2, 3]), "hashseed": rng.choice(["0", "1", "2", "3", "random"]),
-                   "cwd": rng.choice(["root", "sub", "parent", "slash"]),
+                   "cwd": rng.choice(["root", "sub", "parent", "slash", "meson"]),
                    "root": rng.choice(["omitted", "dot", "relative", "absolute", "dotdot", "slash", "symlink"])}
             if valid(cfg):
                 configs.append(cfg)
         for cfg in configs:
-            cmd = ["lint", "--json"] if rng.random() < 0.65 else ["spdx"]
+            cmd = ["lint", "--json"] if rng.random() < 0.65 else spdx_cmd
             try:
                 p, cwd, sched = one_run(cfg, cmd)
             except subprocess.TimeoutExpired:
